@@ -5,7 +5,11 @@ package io
 
 // Self-test of cooperative goroutines and channels (lexer/parser style producer-consumer).
 
-import "github.com/whatap/golib/zzvf"
+import (
+	"context"
+
+	"github.com/whatap/golib/zzvf"
+)
 
 type zzItem struct {
 	k int
@@ -61,4 +65,35 @@ func ZZ_SELF_Coroutines() {
 	_, ok := <-out
 	zzvf.Observe("closed", !ok)
 	zzvf.Reach("coro")
+}
+
+//vf: paths=50 witnesses=2
+func ZZ_SELF_ContextSelect() {
+	ctx, cancel := context.WithCancel(context.Background())
+	n := 0
+	for i := 0; i < 3; i++ {
+		select {
+		case <-ctx.Done():
+			n += 100
+		default:
+			n++
+			if i == 1 {
+				cancel()
+			}
+		}
+	}
+	zzvf.Observe("n", n)
+	zzvf.Observe("err", ctx.Err() != nil)
+	ch := make(chan int, 1)
+	sent := 0
+	for i := 0; i < 2; i++ {
+		select {
+		case ch <- i:
+			sent++
+		default:
+		}
+	}
+	zzvf.Observe("sent", sent)
+	zzvf.Observe("got", <-ch)
+	zzvf.Reach("ctx")
 }
